@@ -504,7 +504,7 @@ func runCase(c *kit.Case, pool []member) {
 	}
 	rng.Shuffle(len(plan), func(i, j int) { plan[i], plan[j] = plan[j], plan[i] })
 
-	ctx, cancel := context.WithTimeout(context.Background(), 3*time.Minute)
+	ctx, cancel := context.WithTimeout(context.Background(), 10*time.Minute) // generous: its firing only makes the case inconclusive
 	defer cancel()
 	var hwg sync.WaitGroup
 	var hmu sync.Mutex
